@@ -11,7 +11,7 @@ from harness.tlsrun import run_tls
 from wire import tlsref as R
 
 INV = ["TypeOK", "ReleasedIsPrefix", "ReleasedAllAtQuiescence", "MetaIsOverlapSet"]
-BASE = dict(StreamDef="<<1,2>>", H="5", MaxHeld="1", MaxDup="1", MaxSeg="8", AllowGap="FALSE", AllowWrap="FALSE",
+BASE = dict(StreamDef="<<1,2>>", H="5", MaxHeld="1", MaxDup="1", MaxSeg="8", AllowGap="FALSE", AllowWrap="FALSE", AllowMidGap="TRUE", BogusOver="TRUE",
             Mod="64", IsnSet="{0}", EmitOn="FALSE")
 
 # (version, suite code): one per cipher-state kind so that a mis-ordered / lost / duplicated record is visible
@@ -20,7 +20,34 @@ KINDS = [(R.TLS13, 0x1301), (R.TLS12, 0xC02F), (R.TLS12, 0xCCA8), (R.TLS12, 0x00
 
 
 def scenario(beh, stream, kind, seed, flight="app"):
-    """abstract behaviour -> TLS scenario dict"""
+    """abstract behaviour -> TLS scenario dict.  A behaviour with `midgap` steps (a segment captured ahead of the head of its own
+    record while nothing else is buffered) assumes BogusOver: the 16-bit length found at bytes 3..4 of the mid-record anchor exceeds
+    everything the direction still sends.  That is a fact about the concrete ciphertext, so connections are drawn (other seeds) until
+    the bytes satisfy it; None when 30 draws do not."""
+    for k in range(30):
+        sc = _scenario(beh, stream, kind, seed + 7919 * k, flight)
+        if bogus_over(sc):
+            return sc
+    return None
+
+
+def bogus_over(sc):
+    from harness.tlsrun import build_conn, sched_segments
+    cd = sc["conns"][0]
+    heads = [h["head"] for h in cd["sched"]["hist"] if h["kf"] == "midgap"]
+    if not heads:
+        return True
+    c = build_conn(cd)
+    _, cellmap = sched_segments(c, 0, cd["sched"])
+    st = c.stream(cd["sched"]["dir"])
+    for hd in heads:
+        m = cellmap[hd]
+        if len(st) - m >= 5 and m + 5 + int.from_bytes(st[m + 3:m + 5], "big") <= len(st):
+            return False
+    return True
+
+
+def _scenario(beh, stream, kind, seed, flight="app"):
     ver, suite = kind
     rng = random.Random(seed)
     n = len(stream)
@@ -117,6 +144,7 @@ def run(chk):
         chk.tlc(name, r)
     # 2. the named deviations really are deviations (documents which contract clause each breaks)
     for name, upd, expect in [("KF_GapAccept", dict(AllowGap="TRUE"), "ReleasedIsPrefix"),
+                              ("KF_GapAccept (bogus length fits)", dict(AllowGap="TRUE", BogusOver="FALSE"), "ReleasedIsPrefix"),
                               ("KF_SeqWrap", dict(StreamDef="<<1,1>>", Mod="16", IsnSet="0..15", AllowWrap="TRUE", MaxDup="0"),
                                "ReleasedAllAtQuiescence")]:
         r = tlc.run("Reasm", dict(BASE, **upd), invariants=INV, view="View", timeout=200)
@@ -125,7 +153,7 @@ def run(chk):
         if r.violated != expect:
             raise Exception(f"model: {name} should violate {expect}, TLC says {r.violated}")
     # 3. behaviours of the KF-disabled model -> real TLS connections
-    jobs = []
+    jobs, nmid = [], 0
     streams = [(1, 2), (2, 1, 1)] if quick else [(1, 2), (2, 1, 1), (1, 1, 2, 1), (3, 1), (1, 3, 2)]
     per = 60 if quick else 900
     for st in streams:
@@ -136,8 +164,13 @@ def run(chk):
                 b["mod"] = int(consts.get("Mod", 0))
                 kind = KINDS[(i + len(jobs)) % len(KINDS)]
                 fl = "hs" if (len(st) == 3 and kind[0] != R.TLS13 and i % 4 == 0) else "app"
-                kfs = sorted({h["kf"] for h in b["hist"]} - {"ok"})
-                jobs.append((scenario(b, st, kind, rng.randrange(1 << 30), fl), kfs))
+                kfs = sorted({h["kf"] for h in b["hist"]} - {"ok", "midgap"})
+                sc = scenario(b, st, kind, rng.randrange(1 << 30), fl)
+                if sc is None:
+                    chk.extra["midgap_behaviours_skipped_bytes_do_not_overshoot"] = chk.extra.get("midgap_behaviours_skipped_bytes_do_not_overshoot", 0) + 1
+                    continue
+                nmid += any(h["kf"] == "midgap" for h in b["hist"])
+                jobs.append((sc, kfs))
     # 4. known-finding witnesses (KF-enabled model) are replayed too: they must be attributed, never silently pass as ok
     for st, consts in (((1, 2), dict(MaxHeld="1", MaxDup="0", AllowGap="TRUE")),
                        ((1, 1), dict(MaxHeld="0", MaxDup="0", AllowWrap="TRUE", Mod="16", IsnSet="4..15"))):
@@ -145,8 +178,11 @@ def run(chk):
                 if any(h["kf"] != "ok" for h in b["hist"])]
         for i, b in enumerate(behs[: 12 if quick else 120]):
             b["mod"] = int(consts.get("Mod", 0))
-            kfs = sorted({h["kf"] for h in b["hist"]} - {"ok"})
-            jobs.append((scenario(b, st, KINDS[i % len(KINDS)], rng.randrange(1 << 30)), kfs))
+            kfs = sorted({h["kf"] for h in b["hist"]} - {"ok", "midgap"})
+            sc = scenario(b, st, KINDS[i % len(KINDS)], rng.randrange(1 << 30))
+            if sc is not None and kfs:
+                jobs.append((sc, kfs))
+    chk.extra["midgap_behaviours_replayed"] = nmid
     results = pool_map(_replay_one, jobs)
     traces = []
     for r in results:
